@@ -543,6 +543,9 @@ def mon_no_panic_returns(ctx, conn):
             viol(ctx, conn, "server-panicked", dict(op=op[:200]))
         if "stuck" in items:
             viol(ctx, conn, "server-stuck", dict(op=op[:200]))
+        if any(i.startswith("response-closed-under-handler") for i in items):
+            # the stream loop reached into a response whose handler was still running (ownership, C17/C19)
+            viol(ctx, conn, "response-touched-while-handler-owns-it", dict(op=op[:200], out=out[:200]))
         if f[2] == "stallcut" and ("served=false" in out or "looped=false" in out):
             # a peer that stopped reading, went on sending and then disconnected
             viol(ctx, conn, "serveconn-did-not-return-after-stalled-peer-left", dict(out=out))
@@ -820,7 +823,7 @@ def run_c14(ctx):
 
 
 def run_c17(ctx):
-    return run_family(ctx, ["srv-soup", "srv-acct"], [mon_no_panic_returns],
+    return run_family(ctx, ["srv-soup", "srv-acct", "srv-limits"], [mon_no_panic_returns],
                       "srv-soup: every 3rd (thorough: every) truncation offset of a recorded well-formed client byte stream followed by EOF; structure-aware mutations (frame delete/duplicate/insert, header or payload bit flip); random frame soups; each ends with EOF and ServeConn must return.")
 
 
@@ -858,6 +861,13 @@ def run_c19(ctx):
         npanic = sum(1 for a in i if a == "panic" or " panic-logged" in (" " + a.replace("|", " ")) .replace("handler-panic-logged", "") or "panicked=1" in a)
         if npanic:
             ctx.violations.append(dict(kind="panic-under-tracker-run", detail=dict(family=area, n=npanic), ops=ops[:3000]))
+        touched = [k for k, a in enumerate(i) if "response-closed-under-handler" in a]
+        if touched:
+            # a response was closed by someone else while its handler still owned it: the op sequence of that connection
+            k = touched[0]
+            start = max(j for j in range(k + 1) if " new " in ops[j] or j == 0)
+            ctx.violations.append(dict(kind="response-touched-while-handler-owns-it", detail=dict(family=area, n=len(touched), out=i[k][:200]),
+                                       ops=[l for l in ops[start:k + 1]][:400]))
         if area.startswith("srv") and area != "srv-burst":
             cov, diffs = srv_compare(ctx, area, o[1:-1], i[1:-1], m[1:-1])
         else:
